@@ -65,7 +65,7 @@ Example C03_example :
                 ss_state s = SEstablished /\ ss_to s = Some 1.
 Proof. eexists; eexists. split; [vm_compute; right; right; right; right; right; left; reflexivity|]. split; reflexivity. Qed.
 
-(* ---- the Authenticate callback a ServerBuilder installs (server.go: buildAuthenticate; Model H) ---- *)
+(* ---- the Authenticate callback a ServerBuilder installs (server.go: buildAuthenticate; Model J) ---- *)
 (* A known role comes from exactly one place: the guest rule for a name that is a UUID, or the installed
    authenticator of the scheme of the object presented, asked about the presented identity and the presented
    (decoded) secret.  The transport scheme, a missing authentication object, a scheme whose authenticator was
